@@ -487,6 +487,9 @@ func NewActor(name string, opt ...nodeenrollment.Option) *Actor {
 	return a
 }
 
+// FillActor derives the convenience fields of an actor from its credentials.
+func FillActor(a *Actor) { a.fill() }
+
 func (a *Actor) fill() {
 	k, err := x509.ParsePKCS8PrivateKey(a.Creds.CertificatePrivateKeyPkcs8)
 	if err != nil {
@@ -571,10 +574,10 @@ type World struct {
 	Ctx     context.Context
 	Backend Backend
 	Inner   nodeenrollment.Storage
-	Rec     *RecStorage           // recorder around Inner
+	Rec     *RecStorage            // recorder around Inner
 	Store   nodeenrollment.Storage // what the library is given (Rec or a NodeIdStorage around it)
-	NodeID  *NodeIdStorage        // non-nil when Store implements NodeIdLoader
-	SW      wrapping.Wrapper      // storage wrapper or nil
+	NodeID  *NodeIdStorage         // non-nil when Store implements NodeIdLoader
+	SW      wrapping.Wrapper       // storage wrapper or nil
 	Opts    []nodeenrollment.Option
 	cleanup func()
 }
@@ -703,11 +706,11 @@ func MintRoot(nb, na time.Time) *MintedRoot {
 	pkixb, keyID, _ := nodeenrollment.SubjectKeyInfoAndKeyIdFromPubKey(pub)
 	tmpl := &x509.Certificate{
 		AuthorityKeyId: pkixb, SubjectKeyId: pkixb,
-		Subject:               pkix.Name{CommonName: keyID},
-		DNSNames:              []string{keyID, nodeenrollment.CommonDnsName},
-		KeyUsage:              x509.KeyUsageDigitalSignature | x509.KeyUsageKeyEncipherment | x509.KeyUsageKeyAgreement | x509.KeyUsageCertSign,
-		SerialNumber:          big.NewInt(time.Now().UnixNano()),
-		NotBefore:             nb, NotAfter: na,
+		Subject:      pkix.Name{CommonName: keyID},
+		DNSNames:     []string{keyID, nodeenrollment.CommonDnsName},
+		KeyUsage:     x509.KeyUsageDigitalSignature | x509.KeyUsageKeyEncipherment | x509.KeyUsageKeyAgreement | x509.KeyUsageCertSign,
+		SerialNumber: big.NewInt(time.Now().UnixNano()),
+		NotBefore:    nb, NotAfter: na,
 		BasicConstraintsValid: true, IsCA: true,
 	}
 	der, err := x509.CreateCertificate(rand.Reader, tmpl, tmpl, pub, priv)
